@@ -266,7 +266,8 @@ func run(c *mc.Ctx) {
 		if got := val(acc); got.Cmp(sum) != 0 {
 			w.Fail("Scalar.Add/accumulate", fmt.Sprintf("accumulating %d values with Add gives %x want %x", n, got, sum), cas)
 		}
-		if n <= 64 && ref.SMod(v).Sign() != 0 && ref.SMod(alt).Sign() != 0 {
+		if ref.SMod(v).Sign() != 0 && ref.SMod(alt).Sign() != 0 { // every length (a blocked implementation changes behaviour at its block size)
+			invV, invAlt := ref.SInv(v), ref.SInv(alt)
 			in := make([]*scalar.Scalar, n)
 			for k := range in {
 				in[k] = scalar.New().Set(vs[k])
@@ -280,7 +281,11 @@ func run(c *mc.Ctx) {
 				if k%3 == 2 {
 					x = alt
 				}
-				if val(in[k]).Cmp(ref.SInv(x)) != 0 {
+				want := invV
+				if x == alt {
+					want = invAlt
+				}
+				if val(in[k]).Cmp(want) != 0 {
 					w.Fail("Scalar.BatchInvert/elem", fmt.Sprintf("BatchInvert of %d values: element %d is not the inverse", n, k), cas)
 					break
 				}
